@@ -97,6 +97,8 @@ pub struct StructField {
 
     pub xml_name: Option<String>,
     pub xml_flattened: bool,
+    pub xml_attribute: bool,
+    pub xml_namespace_prefix: Option<(String, String)>,
 
     pub is_custom_extension: bool,
 }
